@@ -11,7 +11,9 @@ import Vanguard.Lemmas.Serve
   shows by a decreasing measure (bytes left, envelope/body phase) that the fuel `Write` provides is
   never exhausted - more fuel never changes the result.  The decrease relies on the latch
   `if w.err != nil { return }` at the top of the loop, the very check whose removal makes the real
-  loop spin (seeded change C11_1).
+  loop spin (seeded change C11_1).  The same is proved for **the loop of `transformingWriter.Write`**
+  (`twLoop_fuel`, `twLoop_enough`; the invariant it needs - fewer than five buffered bytes while an
+  envelope is collected - is kept by the loop, `twLoop_keeps_inv`, and established by `reset`).
   Partial: panic-freedom of the whole `serve` is not a theorem; it is covered by the
   correspondence, where `panic=0` is part of every compared observation, and a watchdog in the
   harness reports a call that does not return.
@@ -224,5 +226,238 @@ theorem ewLoop_keeps_inv (w : World) (tb : Tables) : ∀ (n : Nat) (st : St) (e 
               · intro _ h; simp at h
             · simp only [ht, Bool.false_eq_true, if_false]
               apply ih; intro _ _; simp
+
+/-! ### the loop of `transformingWriter.Write` -/
+
+/-- The loop measure of the re-encoding writer. -/
+def muT (t : TW) (data : Bytes) : Nat := 2 * data.length + (if t.writingEnvelope then 0 else 1)
+
+/-- While an envelope is being collected (and the writer is not latched) it expects five bytes and
+    has fewer than five of them. -/
+def TwInv (t : TW) : Prop :=
+  t.err = false → t.writingEnvelope = true → t.expecting = 5 ∧ (t.buffer.getD []).length < 5
+
+theorem twLoop_err (w : World) (tb : Tables) (n : Nat) (st : St) (t : TW) (d : Bytes) (h : t.err = true) :
+    twLoop w tb (n + 1) st t d = (st, t, true, false) := by
+  unfold twLoop; simp [h]
+
+/-- After a message was flushed without error the writer is latched (end of stream) or its buffer is empty. -/
+theorem twFlushMessage_writer (w : World) (tb : Tables) (st : St) (t : TW) :
+    (twFlushMessage w tb st t).2.2.1 = none → (twFlushMessage w tb st t).2.2.2 = false →
+    ((twFlushMessage w tb st t).2.1.err = true ∨ (twFlushMessage w tb st t).2.1.buffer = some []) := by
+  unfold twFlushMessage
+  simp only
+  split
+  · split
+    · intro h1 h2; simp_all
+    · intro _ _; exact Or.inl rfl
+  · split
+    · intro h; simp at h
+    · cases hce : st.op.clientEnveloper with
+      | none =>
+        simp only [Option.isSome_none, Bool.false_eq_true, if_false, Bool.or_self]
+        split
+        · intro h; simp at h
+        · intro _ _; right; unfold twReset; split <;> rfl
+      | some ce =>
+        simp only
+        split
+        · intro h; simp at h
+        · simp only
+          split
+          · intro h1 h2; simp_all
+          · split
+            · intro h1 h2; simp_all
+            · split
+              · intro h; simp at h
+              · intro _ _; right; unfold twReset; split <;> rfl
+
+/-- **Termination of `transformingWriter.Write`'s loop**: once the fuel exceeds the measure, more
+    fuel changes nothing, for any writer state and any bytes the backend writes. -/
+theorem twLoop_fuel (w : World) (tb : Tables) : ∀ (n : Nat) (st : St) (t : TW) (data : Bytes),
+    TwInv t → muT t data < n → twLoop w tb n st t data = twLoop w tb (n + 1) st t data := by
+  intro n
+  induction n with
+  | zero => intro _ _ _ _ h; omega
+  | succ m ih =>
+    intro st t data hinv hmu
+    unfold twLoop
+    by_cases herr : t.err = true
+    · simp [herr]
+    · have herrf : t.err = false := by simpa using herr
+      simp only [herr, Bool.false_eq_true, if_false]
+      by_cases hneg : (t.expecting - ((t.buffer.getD []).length : Int)) < 0
+      · simp [hneg]
+      · simp only [hneg, if_false]
+        by_cases hlt : (data.length : Int) < t.expecting - ((t.buffer.getD []).length : Int)
+        · simp [hlt]
+        · simp only [hlt, if_false]
+          have hrest : (data.drop (t.expecting - ((t.buffer.getD []).length : Int)).toNat).length
+              = data.length - (t.expecting - ((t.buffer.getD []).length : Int)).toNat := List.length_drop
+          by_cases hw : t.writingEnvelope = true
+          · -- an envelope has been completed: at least one of its bytes came with this call
+            obtain ⟨hexp, hgot⟩ := hinv herrf hw
+            simp only [hw, if_true]
+            split
+            · split
+              · rfl
+              · split
+                · rfl
+                · apply ih
+                  · intro _ h; simp at h
+                  · unfold muT at hmu ⊢
+                    simp only [hw, if_true, Bool.false_eq_true, if_false, hrest] at hmu ⊢
+                    rw [hexp]
+                    omega
+            · rfl
+          · have hwf : t.writingEnvelope = false := by simpa using hw
+            simp only [hwf, Bool.false_eq_true, if_false]
+            have hwr := fun tt => twFlushMessage_writer w tb st tt
+            generalize hr : twFlushMessage w tb st _ = r
+            have hwr' : r.2.2.1 = none → r.2.2.2 = false → (r.2.1.err = true ∨ r.2.1.buffer = some []) := by
+              rw [← hr]; exact hwr _
+            obtain ⟨s1, t1, err, p⟩ := r
+            simp only at hwr' ⊢
+            by_cases hp : p = true
+            · simp [hp]
+            · have hpf : p = false := by simpa using hp
+              simp only [hp, Bool.false_eq_true, if_false]
+              cases err with
+              | some e => rfl
+              | none =>
+                simp only
+                split
+                · rfl
+                · rcases hwr' rfl hpf with hlatched | hempty
+                  · -- end of stream handled: the writer is latched, the next round returns at once
+                    have hm : ∃ m', m = m' + 1 := by
+                      unfold muT at hmu; simp only [hwf, Bool.false_eq_true, if_false] at hmu
+                      exact ⟨m - 1, by omega⟩
+                    obtain ⟨m', rfl⟩ := hm
+                    rw [twLoop_err w tb m' _ _ _ (by simpa using hlatched), twLoop_err w tb (m' + 1) _ _ _ (by simpa using hlatched)]
+                  · apply ih
+                    · intro _ _; simp [hempty]
+                    · unfold muT at hmu ⊢
+                      simp only [hwf, Bool.false_eq_true, if_false, if_true, hrest] at hmu ⊢
+                      omega
+
+theorem twReset_inv (st : St) (t : TW) (hw : t.writingEnvelope = false) : TwInv (twReset st t) := by
+  unfold twReset
+  split
+  · intro _ _; exact ⟨rfl, by simp⟩
+  · intro _ h; simp only at h; rw [hw] at h; cases h
+
+/-- Whatever `flushMessage` returns as the writer satisfies the invariant. -/
+theorem twFlushMessage_writer_inv (w : World) (tb : Tables) (st : St) (t : TW) (hw : t.writingEnvelope = false) :
+    TwInv (twFlushMessage w tb st t).2.1 := by
+  have hv : ∀ (t' : TW), t'.writingEnvelope = false → TwInv t' := by
+    intro t' h _ h2; rw [h] at h2; cases h2
+  unfold twFlushMessage
+  simp only
+  split
+  · split
+    · exact hv _ hw
+    · exact hv _ hw
+  · split
+    · exact hv _ hw
+    · cases hce : st.op.clientEnveloper with
+      | none =>
+        simp only [Option.isSome_none, Bool.false_eq_true, if_false, Bool.or_self]
+        split
+        · exact hv _ hw
+        · exact twReset_inv _ t hw
+      | some ce =>
+        simp only
+        split
+        · exact hv _ hw
+        · simp only
+          split
+          · exact hv _ hw
+          · split
+            · exact hv _ hw
+            · split
+              · exact hv _ hw
+              · exact twReset_inv _ t hw
+
+/-- The fuel `twWrite` gives its loop is always enough. -/
+theorem twLoop_enough (w : World) (tb : Tables) (st : St) (t : TW) (data : Bytes) (hinv : TwInv t) :
+    ∀ k, twLoop w tb (2 * data.length + 4 + k) st t data = twLoop w tb (2 * data.length + 4) st t data := by
+  intro k
+  induction k with
+  | zero => rfl
+  | succ k ih =>
+    rw [← ih]
+    have hmu : muT t data < 2 * data.length + 4 + k := by
+      unfold muT; split <;> omega
+    exact (twLoop_fuel w tb _ st t data hinv hmu).symm
+
+/-- `reset` establishes the invariant (enveloped backend: expecting five bytes, nothing buffered). -/
+example : TwInv { buffer := some [], expecting := 5, writingEnvelope := true } := by
+  intro _ _; exact ⟨rfl, by decide⟩
+
+/-- The invariant is kept by the loop itself (unless the handler's goroutine panicked, after which
+    nothing runs any more), so it holds before every later `Write` of the same response. -/
+theorem twLoop_keeps_inv (w : World) (tb : Tables) : ∀ (n : Nat) (st : St) (t : TW) (data : Bytes),
+    TwInv t → (twLoop w tb n st t data).2.2.2 = false → TwInv (twLoop w tb n st t data).2.1 := by
+  intro n
+  induction n with
+  | zero => intro st t data _ h; simp [twLoop] at h
+  | succ m ih =>
+    intro st t data hinv
+    unfold twLoop
+    by_cases herr : t.err = true
+    · simp only [herr, if_true]; exact fun _ => hinv
+    · have herrf : t.err = false := by simpa using herr
+      simp only [herr, Bool.false_eq_true, if_false]
+      by_cases hneg : (t.expecting - ((t.buffer.getD []).length : Int)) < 0
+      · simp [hneg]
+      · simp only [hneg, if_false]
+        by_cases hlt : (data.length : Int) < t.expecting - ((t.buffer.getD []).length : Int)
+        · simp only [hlt, if_true]
+          intro _ _ hw
+          simp only at hw ⊢
+          obtain ⟨hexp, hgot⟩ := hinv herrf hw
+          refine ⟨hexp, ?_⟩
+          simp only [Option.getD_some, List.length_append]
+          rw [hexp] at hlt
+          omega
+        · simp only [hlt, if_false]
+          by_cases hw : t.writingEnvelope = true
+          · simp only [hw, if_true]
+            split
+            · split
+              · intro _ _ _; exact ⟨(hinv herrf hw).1, by simp⟩
+              · split
+                · intro _ _ _; exact ⟨(hinv herrf hw).1, by simp⟩
+                · apply ih; intro _ h; simp at h
+            · intro h; simp at h
+          · have hwf : t.writingEnvelope = false := by simpa using hw
+            simp only [hwf, Bool.false_eq_true, if_false]
+            have hwr := fun tt => twFlushMessage_writer w tb st tt
+            generalize hr : twFlushMessage w tb st _ = r
+            have hwr' : r.2.2.1 = none → r.2.2.2 = false → (r.2.1.err = true ∨ r.2.1.buffer = some []) := by
+              rw [← hr]; exact hwr _
+            have ht1 : TwInv r.2.1 := by
+              rw [← hr]; exact twFlushMessage_writer_inv w tb st _ rfl
+            obtain ⟨s1, t1, err, p⟩ := r
+            simp only at hwr' ht1 ⊢
+            by_cases hp : p = true
+            · simp [hp]
+            · have hpf : p = false := by simpa using hp
+              simp only [hp, Bool.false_eq_true, if_false]
+              cases err with
+              | some e =>
+                simp only
+                intro _
+                exact ht1
+              | none =>
+                simp only
+                split
+                · intro _
+                  exact ht1
+                · apply ih
+                  rcases hwr' rfl hpf with hl | he
+                  · intro h; simp [hl] at h
+                  · intro _ _; simp [he]
 
 end Vanguard.C11
